@@ -309,6 +309,10 @@ def run(F, rep):
                   'setParent(newParent) is reachable without `newParent == component` having been excluded: c->addComponent(c) on a component that has a parent makes c its own parent and child (facts: %s)' % sorted(rc),
                   'newParent != component on every path')
 
+    # ------------------------------------------------------------------ K1: sentinel answers are not keys
+    from engines import rule_sentinel_keys
+    rule_sentinel_keys(F, rep, 'C09.K1')
+
     # ------------------------------------------------------------------ E1
     rep.rule('C09.E1', 'Variable::addEquivalence links both directions and rolls back a one-sided link; removeEquivalence unlinks both directions; unsetEquivalentTo erases the mapping/connection id entries')
     ae = F.fn1('libcellml::Variable::addEquivalence', nparams=2)
